@@ -75,7 +75,8 @@ pub fn selftest_main(full: bool) -> i32 {
     }
     // (c) reference decoder against the repository's own octet vectors
     {
-        let path = "/repo/src/message/tests/valid_avp.rs";
+        let path = engine::repo_root().join("src/message/tests/valid_avp.rs");
+        let path = path.to_str().unwrap_or("/repo/src/message/tests/valid_avp.rs");
         match std::fs::read_to_string(path) {
             Ok(src) => {
                 let vs = extract_vectors(&src);
